@@ -63,8 +63,12 @@ func verifCheckOpCodes(a, b []string, codes []opCode) {
 
 func H_opcodes() {
 	N := verifParam("N")
+	NB := verifParam("NB") // optional smaller bound for the second sequence
+	if NB == 0 {
+		NB = N
+	}
 	la := verifChoose("len-a", N+1)
-	lb := verifChoose("len-b", N+1)
+	lb := verifChoose("len-b", NB+1)
 	a := verifLines("a", la)
 	b := verifLines("b", lb)
 	m := newMatcher(a, b)
@@ -78,7 +82,7 @@ func H_opcodes() {
 		}
 	}
 	verifAssert(allEq == same, "only 'e' opcodes exactly when the sequences are equal")
-	if la == N && lb == N {
+	if la == N && lb == NB {
 		verifReach("opcodes-maxlen")
 	}
 	verifReach("opcodes")
